@@ -139,13 +139,14 @@ class WeightedProbabilityBasedSquaredError(ProbabilityBasedLossFunction):
         self, mode_weight: str, data: List[Tuple[int, np.ndarray]]
     ) -> None:
         if mode_weight == "identity":
-            pass
+            self.set_weight_matrices(None)
         elif mode_weight == "custom":
             self.set_weight_matrices(self.option.weights)
-        elif (
-            mode_weight == "inverse_sample_covariance"
-            or mode_weight == "inverse_unbiased_covariance"
-        ):
+        elif mode_weight in [
+            "inverse_sample_covariance",
+            "inverse_unbiased_covariance",
+            "unbiased_inverse_covariance",
+        ]:
             weight_matrices = []
             for (num_data, empi_dist_original) in data:
                 empi_dist = matrix_util.replace_prob_dist(empi_dist_original)
@@ -168,10 +169,7 @@ class WeightedProbabilityBasedSquaredError(ProbabilityBasedLossFunction):
                 )
 
                 extracted_mat_inv = np.linalg.inv(extracted_mat)
-                if row == 2 and col == 2:
-                    weight_matrix[0, 0] = extracted_mat_inv[0, 0]
-                else:
-                    weight_matrix[:row, :col] = extracted_mat_inv
+                weight_matrix[: row - 1, : col - 1] = extracted_mat_inv
                 weight_matrices.append(weight_matrix)
 
             self.set_weight_matrices(weight_matrices)
